@@ -497,6 +497,29 @@ def rule_range(ck):
         if not clamp_ok and not probs:
             probs.append('open mode does not clamp idx >= len(bins)-1 to the last bin')
         (o.fail('; '.join(probs)) if probs else o.ok('{idx<=-1} -> -1, {idx>=N-1} -> N-1'))
+    # ---- the range tests see the floored quotient itself: a conversion to an integer type before them turns +inf and every quotient
+    # beyond 2**63 into the most negative integer, which the lower test then reports as "below the first edge"
+    o = ck.ob('C02-D3.castlast', f, 'the integer conversion comes after the range stores', f.node)
+    cfg = f.cfg
+    casts = []
+    for a in find_assignments(f, var):
+        if not isinstance(a, ast.Assign):
+            continue
+        for c in ast.walk(a.value):
+            if isinstance(c, ast.Call):
+                nm = (call_name(c) or (c.func.attr if isinstance(c.func, ast.Attribute) else ''))
+                tail = nm.split('.')[-1]
+                intish = lambda e_: e_ is not None and any(w in u(e_) for w in ('int', "'i8'", "'i4'", "'l'"))
+                if (tail == 'astype' and c.args and intish(c.args[0])) or tail in ('int64', 'int32', 'intp', 'int_') or \
+                        (tail in ('asarray', 'array') and intish(kw(c, 'dtype'))):
+                    casts.append(a)
+                    break
+    stores_ = [s_ for s_, _, _ in closed + opened if not getattr(s_, '_synthetic', False)]
+    early = [(c_, s_) for c_ in casts for s_ in stores_ if cfg.node_of(c_) is not None and cfg.node_of(s_) is not None
+             and cfg.dominates(cfg.node_of(c_), cfg.node_of(s_))]
+    (o.fail('`%s` converts the index to an integer type before `%s` tests its range: a value far above the last edge (+inf, 1e300) becomes '
+            'the most negative integer and is reported as out of range (-1) instead of the last, open-ended bin' % (u(early[0][0])[:60], u(early[0][1])[:40]))
+     if early else o.ok('%d conversion(s), none before a range store' % len(casts)))
     # ---- single-edge grid forces open mode and a positive spacing; negative spacing raises
     o = ck.ob('C02-D3.single', f, 'single-edge grid -> open-ended with positive spacing', f.node)
     found = False
@@ -776,6 +799,15 @@ def rule_generators(ck):
             oo.fail('the power-of-ten scale `%s` is derived from the decimals of %s only; a step with more decimals whose reciprocal is not '
                     'an integer (start 5.0, step 0.07: scale = 1/0.07 = 14.2857) makes scale*start a non-integer, so the generated edges '
                     '(4.97, 5.04, ...) are not the decimal grid start + k*step' % (u(pows[0])[:60], sorted(names) or 'nothing'))
+    # the decimals of start are read off a text that always shows one (str(5.0) = '5.0'): the grid is at least tenths, which is what keeps
+    # an integer-valued start with a step of 0.3 / 0.4 / 0.6 on it.  A text without the trailing zero ('5') gives a scale of 1/h there.
+    if pows and not (h in names and start in names):
+        oo = ck.ob('C02-D5.tenths', f, 'an integer-valued start still counts one decimal', rets[0])
+        txt = u(pows[0].right)
+        zero = [w for w in ("trim='-'", "trim='0'", "rstrip('0')", "rstrip('.0')", "rstrip('0.')", ':g}', "'%g'", '.normalize()', 'is_integer()') if w in txt.replace('"', "'")]
+        (oo.fail('the number of decimals of start is read from `%s`, which is 0 for an integer-valued start (%s): with a step whose reciprocal is '
+                 'no integer (start 5, step 0.4) the scale is 1/0.4 = 2.5 and the edges come out as 4.8, 5.2, ... instead of 5.0, 5.4, ...'
+                 % (txt[:80], zero[0])) if zero else oo.ok('no form that drops the trailing zero'))
     # the steps-per-unit part of the scale: 1/h, at most snapped / rounded to the nearest integer - never truncated
     oo = ck.ob('C02-D5.scale', f, scale, rets[0])
     trunc = []
